@@ -6,6 +6,8 @@
 //   api run < cases
 //
 // BZ stage hascb pvar effort throwk smode pmode seed <rows cells> <nets>
+//    pvar: 0 valid (steps capped), 1..6 a parameter set that check() rejects, 7 library defaults, 8..17 values at the boundary of what check()
+//          accepts (nbPasses 0, maxNbSteps 1, windows of one row / zero cells, rough legalization 0 steps, tolerances / blendings / noise at both ends)
 //    -> "<trace> # <obs> # <ninv> <cls>"
 //    trace (input of the model): <state dump> nitems item*
 //      item   = setter: kind args   (kinds 1..14, see putOp)
@@ -101,10 +103,31 @@ static ColoquinteParameters mkParams(int pvar, int effort) {
     case 4: p.global.gapTolerance = 2.0; break;
     case 5: p.detailed.shiftNbRows = 0; break;
     case 6: p.global.roughLegalization.binSize = 0.5f; break;
+    // 8..17: values at the boundary of what ColoquinteParameters::check() accepts (all three stages take the whole object)
+    case 8: p.detailed.nbPasses = 0; break;                                                   // no optimisation pass at all
+    case 9: p.global.maxNbSteps = 1; p.global.nbInitialSteps = 0; break;                     // minimal number of steps
+    case 10: p.detailed.shiftNbRows = 1; p.detailed.reorderingNbRows = 1; p.detailed.localSearchNbRows = 0; p.detailed.localSearchNbNeighbours = 0;
+             p.detailed.shiftMaxNbCells = 0; p.detailed.reorderingMaxNbCells = 0; break;     // windows of one row / zero cells
+    case 11: p.detailed.nbPasses = 1; p.detailed.shiftNbRows = 1; p.detailed.reorderingNbRows = 1; p.detailed.shiftMaxNbCells = 1; p.detailed.reorderingMaxNbCells = 1;
+             p.detailed.localSearchNbRows = 1; p.detailed.localSearchNbNeighbours = 1; break;
+    case 12: { auto &r = p.global.roughLegalization; r.nbSteps = 0; r.binSize = 1.0; r.lineReoptSize = 2; r.lineReoptOverlap = 1; r.diagReoptSize = 1; r.diagReoptOverlap = 1;
+               r.squareReoptSize = 1; r.squareReoptOverlap = 1; r.quadraticPenalty = 0.0; r.targetBlending = -0.1; p.global.nbStepsBeforeRoughLegalization = 1; break; }
+    case 13: { auto &r = p.global.roughLegalization; r.binSize = 25.0; r.lineReoptSize = 1; r.diagReoptSize = 1; r.squareReoptSize = 1; r.unidimensionalTransport = true;
+               r.costModel = LegalizationModel::L1; r.quadraticPenalty = 1.0; r.targetBlending = 0.9f; break; }
+    case 14: p.global.gapTolerance = 0.0; p.global.distanceTolerance = 0.0; p.global.exportBlending = -0.5; p.global.noise = 0.0; p.global.penaltyUpdateBackoff = 1.0;
+             p.global.penalty.cutoffDistance = 1.0e-6; p.global.penalty.cutoffDistanceUpdateFactor = 0.8; p.global.penalty.areaExponent = 0.49; p.global.penalty.targetBlending = 0.1f;
+             p.global.continuousModel.approximationDistance = 1.0e-6; p.global.continuousModel.approximationDistanceUpdateFactor = 0.8;
+             p.global.continuousModel.maxNbConjugateGradientSteps = 1; p.global.continuousModel.conjugateGradientErrorTolerance = 1.0; break;
+    case 15: p.global.gapTolerance = 1.0; p.global.exportBlending = 1.5; p.global.noise = 2.0; p.global.penalty.cutoffDistanceUpdateFactor = 1.2; p.global.penalty.areaExponent = 1.01;
+             p.global.penalty.targetBlending = 1.1f; p.global.continuousModel.approximationDistance = 1.0e3; p.global.continuousModel.approximationDistanceUpdateFactor = 1.2;
+             p.global.continuousModel.conjugateGradientErrorTolerance = 1.0e-8; break;
+    case 16: p.legalization.orderingWidth = 2.0; p.legalization.orderingY = 0.2; p.detailed.nbPasses = 0; break;
+    case 17: p.legalization.orderingWidth = -1.0; p.legalization.orderingY = -0.2; p.global.maxNbSteps = 1; p.global.nbInitialSteps = 0; p.global.noise = 0.0; break;
     default: break;
   }
   return p;
 }
+static const int kPvarBoundaryLo = 8, kPvarBoundaryHi = 17;
 
 // ---------------------------------------------------------------- operations
 struct Op {
@@ -192,6 +215,7 @@ static std::vector<Op> genOps(int mode, const Circuit &c, SplitMix &g, bool post
   if (mode & 2) {     // unguarded placement setters: current values inside a callback, moved values afterwards
     IV x = cur(c.cellX()), y = cur(c.cellY()), ori; for (auto v : c.cellOrientation()) ori.push_back((int)v);
     if (post) for (int i = 0; i < n; ++i) { x[i] += g.uni(-2, 2); y[i] += g.uni(-2, 2); }
+    for (auto *v : {&x, &y}) for (auto &e : *v) e = std::max<long long>(std::numeric_limits<int>::min(), std::min<long long>(std::numeric_limits<int>::max(), e));   // setters take int
     { Op o; o.kind = 8; o.a = x; ops.push_back(o); }
     { Op o; o.kind = 9; o.a = y; ops.push_back(o); }
     { Op o; o.kind = 9; o.a = IV(n + 1, 3); ops.push_back(o); }
@@ -208,7 +232,7 @@ static std::vector<Op> genOps(int mode, const Circuit &c, SplitMix &g, bool post
     { Op o; o.kind = 13; o.a = IV(c.nbNets() + 1, 2); ops.push_back(o); }
   }
   if (mode & 8) {     // one more placement call (nested when issued by a callback)
-    Op o; o.kind = 15; o.stage = (mode & 32) ? 2 : 1; o.pvar = (mode & 64) ? 2 : 0; o.effort = 1; ops.push_back(o);
+    Op o; o.kind = 15; o.stage = (mode & 32) ? 2 : 1; o.pvar = (mode & 64) ? 2 : g.coin(50) ? 0 : (int)g.uni(kPvarBoundaryLo, kPvarBoundaryHi); o.effort = 1; ops.push_back(o);
     if (mode & 1) { Op q; q.kind = 3; ops.push_back(q); Op r; r.kind = 5; r.a = rnd01(n); ops.push_back(r); }    // setters again after the nested call
   }
   return ops;
@@ -324,7 +348,7 @@ int main(int argc, char **argv) {
       if (what == "bz") {
         GenOpts o; o.nets = true; o.utilLo = 20; o.utilHi = 115; o.maxCells = 8;
         TCircuit t = genCircuit(g, o);
-        int stage = (int)g.uni(0, 2), hascb = g.coin(90), pvar = g.coin(80) ? 0 : (int)g.uni(1, 6), effort = (int)g.uni(1, 9);
+        int stage = (int)g.uni(0, 2), hascb = g.coin(90), pvar = g.coin(60) ? 0 : g.coin(50) ? (int)g.uni(1, 6) : (int)g.uni(kPvarBoundaryLo, kPvarBoundaryHi), effort = (int)g.uni(1, 9);
         static const int smodes[] = {1, 1, 1, 3, 5, 9, 17, 41, 73, 27, 0, 2};
         static const int pmodes[] = {9, 9, 11, 27, 31, 41, 73, 1};
         int smode = smodes[g.uni(0, 11)], pmode = pmodes[g.uni(0, 7)];
@@ -356,7 +380,7 @@ int main(int argc, char **argv) {
         switch (kindseq) { case 0: stages = {0}; break; case 1: stages = {1}; break; case 2: stages = {2}; break; case 3: stages = {0, 1, 2}; break; case 4: stages = {1, 2}; break; default: stages = {0, 2}; break; }
         s << stages.size();
         for (int st : stages) {
-          int pv = g.coin(88) ? 0 : (int)g.uni(1, 6), eff = (int)g.uni(1, 9);
+          int pv = g.coin(76) ? 0 : g.coin(50) ? (int)g.uni(1, 6) : (int)g.uni(kPvarBoundaryLo, kPvarBoundaryHi), eff = (int)g.uni(1, 9);
           if (pv == 0 && g.coin(20)) { pv = 7; eff = (int)g.uni(1, 3); }                  // uncapped defaults (many callbacks)
           s << " " << st << " " << g.coin(70) << " " << pv << " " << eff << " " << (g.coin(60) ? -1 : (int)g.uni(0, pv == 7 ? 40 : 5));
         }
